@@ -5,7 +5,9 @@
    unblocked them), time::sleep, and a biased select!.  The inner service may apply
    back-pressure to its clones: a hedge attempt task first waits until its own clone is ready
    (scripted), and only then makes its inner call; the primary runs on the instance the caller
-   polled ready.  Executable; no proofs here.  Time unit: milliseconds. *)
+   polled ready; a clone's poll_ready may also fail (scripted), in which case the hedge attempt
+   reports that error without making an inner call.  Executable; no proofs here.
+   Time unit: milliseconds. *)
 From TR Require Import Lib.Base.
 
 Inductive outcome := OOk | OErr | OPanic.
@@ -54,14 +56,19 @@ Record call := mkCall {
   woken : bool;               (* wake flag of the call future's waker *)
   dlog : list (item * Z);     (* ghost: every message sent successfully, with its instant *)
   cons : list item;           (* ghost: messages the call future has taken out of the channel *)
-  res : option (Z * Z * Z)    (* ghost: (result code, value, instant) once resolved *)
+  res : option (Z * Z * Z);   (* ghost: (result code, value, instant) once resolved *)
+  rerr : nat -> bool;         (* scripted: poll_ready of the clone used by hedge attempt k returns Err *)
+  rfl : list nat              (* ghost: hedge tasks whose clone failed readiness (no inner call), in order *)
 }.
 
 Definition init_call (c : cfg) : call :=
-  mkCall Created 0 0 0 None 0 [] [] [] (fun _ => negb (gated c)) [] (fun _ => None) false [] [] None.
+  mkCall Created 0 0 0 None 0 [] [] [] (fun _ => negb (gated c)) [] (fun _ => None) false [] [] None
+         (fun _ => false) [].
 
 (* value carried by the response / error of the n-th inner call of call i *)
 Definition val (i n : nat) : Z := 16 * Z.of_nat i + Z.of_nat n.
+(* error returned by poll_ready of the clone used by hedge attempt k of call i *)
+Definition rval (i k : nat) : Z := 64 + 16 * Z.of_nat i + Z.of_nat k.
 
 Definition is_some {A} (o : option A) : bool := match o with Some _ => true | None => false end.
 
@@ -82,12 +89,12 @@ Definition finish (i : nat) (now : Z) (x : call) (k n : nat) (o : outcome) : cal
       (* no message; in the drain phase the last sender going away wakes the receiver *)
       if match ph x with Drain => closed x | _ => false end
       then mkCall (ph x) (t0 x) (sp x) (errs x) (perr x) (dline x) (queue x) (launch x) (waiting x)
-                  (rdy x) (starts x) (gate x) true (dlog x) (cons x) (res x)
+                  (rdy x) (starts x) (gate x) true (dlog x) (cons x) (res x) (rerr x) (rfl x)
       else x
     | _ =>
       let m : item := (k, match o with OOk => true | _ => false end, val i n) in
       mkCall (ph x) (t0 x) (sp x) (errs x) (perr x) (dline x) (queue x ++ [m]) (launch x) (waiting x)
-             (rdy x) (starts x) (gate x) true (dlog x ++ [(m, now)]) (cons x) (res x)
+             (rdy x) (starts x) (gate x) true (dlog x ++ [(m, now)]) (cons x) (res x) (rerr x) (rfl x)
     end
   | _ => x
   end.
@@ -97,24 +104,41 @@ Definition finish (i : nat) (now : Z) (x : call) (k n : nat) (o : outcome) : cal
 Definition call_inner (i : nat) (now : Z) (x : call) (k : nat) : call :=
   let n := length (starts x) in
   let x1 := mkCall (ph x) (t0 x) (sp x) (errs x) (perr x) (dline x) (queue x) (launch x) (waiting x)
-                   (rdy x) (starts x ++ [(k, now)]) (gate x) (woken x) (dlog x) (cons x) (res x) in
+                   (rdy x) (starts x ++ [(k, now)]) (gate x) (woken x) (dlog x) (cons x) (res x) (rerr x) (rfl x) in
   match gate x n with
   | Some o => finish i now x1 k n o
   | None => x1
   end.
 
+(* hedge attempt task k (launched, not suspended) gets Err(e) from its clone's poll_ready: it
+   makes no inner call and sends (k, Err e); the send fails silently when the receiver is gone *)
+Definition fail_ready (i : nat) (now : Z) (x : call) (k : nat) : call :=
+  match ph x with
+  | Latency | Drain =>
+    let m : item := (k, false, rval i k) in
+    mkCall (ph x) (t0 x) (sp x) (errs x) (perr x) (dline x) (queue x ++ [m]) (launch x) (waiting x)
+           (rdy x) (starts x) (gate x) true (dlog x ++ [(m, now)]) (cons x) (res x) (rerr x) (rfl x ++ [k])
+  | _ =>
+    mkCall (ph x) (t0 x) (sp x) (errs x) (perr x) (dline x) (queue x) (launch x) (waiting x)
+           (rdy x) (starts x) (gate x) (woken x) (dlog x) (cons x) (res x) (rerr x) (rfl x ++ [k])
+  end.
+
 (* the next attempt task (number = length launch) runs for the first time: the primary calls
-   the instance that was polled ready; a hedge asks its own clone for readiness first and is
-   suspended if the clone is not ready *)
+   the instance that was polled ready; a hedge asks its own clone for readiness first: it gives
+   up if that fails, and is suspended if the clone is not ready *)
 Definition launch_task (i : nat) (now : Z) (x : call) : call :=
   let k := length (launch x) in
-  if Nat.eqb k 0 || rdy x k then
+  if negb (Nat.eqb k 0) && rerr x k then
+    fail_ready i now
+      (mkCall (ph x) (t0 x) (sp x) (errs x) (perr x) (dline x) (queue x) (launch x ++ [now]) (waiting x)
+              (rdy x) (starts x) (gate x) (woken x) (dlog x) (cons x) (res x) (rerr x) (rfl x)) k
+  else if Nat.eqb k 0 || rdy x k then
     call_inner i now
       (mkCall (ph x) (t0 x) (sp x) (errs x) (perr x) (dline x) (queue x) (launch x ++ [now]) (waiting x)
-              (rdy x) (starts x) (gate x) (woken x) (dlog x) (cons x) (res x)) k
+              (rdy x) (starts x) (gate x) (woken x) (dlog x) (cons x) (res x) (rerr x) (rfl x)) k
   else
     mkCall (ph x) (t0 x) (sp x) (errs x) (perr x) (dline x) (queue x) (launch x ++ [now]) (waiting x ++ [k])
-           (rdy x) (starts x) (gate x) (woken x) (dlog x) (cons x) (res x).
+           (rdy x) (starts x) (gate x) (woken x) (dlog x) (cons x) (res x) (rerr x) (rfl x).
 
 Fixpoint run_tasks (i : nat) (now : Z) (n : nat) (x : call) : call :=
   match n with O => x | S m => run_tasks i now m (launch_task i now x) end.
@@ -128,8 +152,19 @@ Definition ready_call (i : nat) (now : Z) (x : call) (k : nat) : call :=
   if rdy x k then x else
   let x1 := mkCall (ph x) (t0 x) (sp x) (errs x) (perr x) (dline x) (queue x) (launch x)
                    (remove_id k (waiting x)) (fun j => if Nat.eqb j k then true else rdy x j)
-                   (starts x) (gate x) (woken x) (dlog x) (cons x) (res x) in
+                   (starts x) (gate x) (woken x) (dlog x) (cons x) (res x) (rerr x) (rfl x) in
   if mem k (waiting x) then call_inner i now x1 k else x1.
+
+(* the script makes poll_ready of the clone of hedge attempt k fail from now on: a task
+   suspended on it resumes and gives up; a task launched later gives up at once; a task that
+   has made its inner call already never asks again *)
+Definition readyerr_call (i : nat) (now : Z) (x : call) (k : nat) : call :=
+  if rerr x k then x else
+  let x1 := mkCall (ph x) (t0 x) (sp x) (errs x) (perr x) (dline x) (queue x) (launch x)
+                   (remove_id k (waiting x)) (rdy x)
+                   (starts x) (gate x) (woken x) (dlog x) (cons x) (res x)
+                   (fun j => if Nat.eqb j k then true else rerr x j) (rfl x) in
+  if mem k (waiting x) then fail_ready i now x1 k else x1.
 
 (* what the receive side of one poll does with the queued messages *)
 Inductive cres :=
@@ -172,14 +207,14 @@ Fixpoint fire (c : cfg) (now : Z) (fuel : nat) (s : nat) (dl : Z) : nat * Z :=
 
 Definition resolve (now : Z) (x : call) (r v : Z) (cs rest : list item) (e : nat) (pe : option Z) : call :=
   mkCall Done (t0 x) (sp x) e pe (dline x) rest (launch x) (waiting x) (rdy x) (starts x) (gate x) false
-         (dlog x) cs (Some (r, v, now)).
+         (dlog x) cs (Some (r, v, now)) (rerr x) (rfl x).
 
 Definition poll_latency (c : cfg) (now : Z) (x : call) : call * Z * Z :=
   match consume_lat (maxa c) (queue x) (cons x) (errs x) (perr x) with
   | CDone r v cs rest e pe => (resolve now x r v cs rest e pe, r, v)
   | CCont cs e pe =>
     let '(s, dl) := fire c now (maxa c) (sp x) (dline x) in
-    (mkCall Latency (t0 x) s e pe dl [] (launch x) (waiting x) (rdy x) (starts x) (gate x) false (dlog x) cs (res x), 0, 0)
+    (mkCall Latency (t0 x) s e pe dl [] (launch x) (waiting x) (rdy x) (starts x) (gate x) false (dlog x) cs (res x) (rerr x) (rfl x), 0, 0)
   end.
 
 Definition poll_drain (now : Z) (x : call) : call * Z * Z :=
@@ -191,16 +226,16 @@ Definition poll_drain (now : Z) (x : call) : call * Z * Z :=
       | Some ev => (resolve now x 3 ev cs [] e pe, 3, ev)
       | None => (resolve now x 5 0 cs [] e pe, 5, 0)   (* `.expect("at least one error should exist")` *)
       end
-    else (mkCall Drain (t0 x) (sp x) e pe (dline x) [] (launch x) (waiting x) (rdy x) (starts x) (gate x) false (dlog x) cs (res x), 0, 0)
+    else (mkCall Drain (t0 x) (sp x) e pe (dline x) [] (launch x) (waiting x) (rdy x) (starts x) (gate x) false (dlog x) cs (res x) (rerr x) (rfl x), 0, 0)
   end.
 
 (* first poll: spawn the primary, choose the mode *)
 Definition begin (c : cfg) (now : Z) (x : call) : call :=
   if (1 <? maxa c)%nat then
     if latency_mode c
-    then mkCall Latency now 1 0 None (now + delay c 1) (queue x) (launch x) (waiting x) (rdy x) (starts x) (gate x) false (dlog x) (cons x) (res x)
-    else mkCall Drain now (maxa c) 0 None 0 (queue x) (launch x) (waiting x) (rdy x) (starts x) (gate x) false (dlog x) (cons x) (res x)
-  else mkCall Drain now 1 0 None 0 (queue x) (launch x) (waiting x) (rdy x) (starts x) (gate x) false (dlog x) (cons x) (res x).
+    then mkCall Latency now 1 0 None (now + delay c 1) (queue x) (launch x) (waiting x) (rdy x) (starts x) (gate x) false (dlog x) (cons x) (res x) (rerr x) (rfl x)
+    else mkCall Drain now (maxa c) 0 None 0 (queue x) (launch x) (waiting x) (rdy x) (starts x) (gate x) false (dlog x) (cons x) (res x) (rerr x) (rfl x)
+  else mkCall Drain now 1 0 None 0 (queue x) (launch x) (waiting x) (rdy x) (starts x) (gate x) false (dlog x) (cons x) (res x) (rerr x) (rfl x).
 
 (* result codes: 0 pending, 1 Ok v, 3 Err(AllAttemptsFailed v), 5 panicked, 9 nothing to poll
    (2 would be Err(Inner), which execute_with_hedging never produces) *)
@@ -223,7 +258,7 @@ Definition drop_call (x : call) : call :=
   match ph x with
   | Created | Latency | Drain =>
     mkCall Dropped (t0 x) (sp x) (errs x) (perr x) (dline x) (queue x) (launch x) (waiting x) (rdy x)
-           (starts x) (gate x) false (dlog x) (cons x) (res x)
+           (starts x) (gate x) false (dlog x) (cons x) (res x) (rerr x) (rfl x)
   | Done | Dropped => x
   end.
 
@@ -235,7 +270,7 @@ Definition timer_fires (c : cfg) (now t1 : Z) (x : call) : bool :=
 
 Definition advance_call (c : cfg) (now t1 : Z) (x : call) : call :=
   mkCall (ph x) (t0 x) (sp x) (errs x) (perr x) (dline x) (queue x) (launch x) (waiting x) (rdy x)
-         (starts x) (gate x) (woken x || timer_fires c now t1 x) (dlog x) (cons x) (res x).
+         (starts x) (gate x) (woken x || timer_fires c now t1 x) (dlog x) (cons x) (res x) (rerr x) (rfl x).
 
 Definition complete_call (i : nat) (now : Z) (x : call) (n : nat) (o : outcome) : call :=
   match gate x n with
@@ -243,7 +278,7 @@ Definition complete_call (i : nat) (now : Z) (x : call) (n : nat) (o : outcome) 
   | None =>
     let x1 := mkCall (ph x) (t0 x) (sp x) (errs x) (perr x) (dline x) (queue x) (launch x) (waiting x)
                      (rdy x) (starts x) (fun j => if Nat.eqb j n then Some o else gate x j) (woken x)
-                     (dlog x) (cons x) (res x) in
+                     (dlog x) (cons x) (res x) (rerr x) (rfl x) in
     match nth_error (starts x) n with
     | Some (k, _) => finish i now x1 k n o
     | None => x1
@@ -256,7 +291,8 @@ Inductive ev :=
 | Drop (i : nat)
 | Advance (d : Z)
 | Complete (i n : nat) (o : outcome)
-| Ready (i k : nat).
+| Ready (i k : nat)
+| ReadyErr (i k : nat).
 
 Record st := mkSt { now : Z; calls : nat -> call }.
 
@@ -279,6 +315,7 @@ Definition step (c : cfg) (s : st) (e : ev) : st * obs :=
     (mkSt t1 (fun j => advance_call c (now s) t1 (calls s j)), no_obs)
   | Complete i n o => (mkSt (now s) (upd (calls s) i (complete_call i (now s) (calls s i) n o)), no_obs)
   | Ready i k => (mkSt (now s) (upd (calls s) i (ready_call i (now s) (calls s i) k)), no_obs)
+  | ReadyErr i k => (mkSt (now s) (upd (calls s) i (readyerr_call i (now s) (calls s i) k)), no_obs)
   end.
 
 Definition step_st (c : cfg) (s : st) (e : ev) : st := fst (step c s e).
@@ -286,9 +323,16 @@ Definition step_st (c : cfg) (s : st) (e : ev) : st := fst (step c s e).
 (* ---- script interface ----
    script = [max; mode; ncalls; nd; d_1 .. d_nd; (op a b)* ]
      mode mod 4: 0 (or 3) = Fixed d_1, 1 = Immediate, 2 = Dynamic (attempt k -> d_k, 0 beyond nd);
-     (mode / 4) mod 2 = 1: gated readiness of clones
+     (mode / 4) mod 2 = 1: gated readiness of clones;
+     (mode / 8) mod 4: how the harness shares Hedge values between the calls (no effect here:
+     hedged calls are independent of each other);
+     (mode / 32) mod 2 = 1: the d_k are microseconds (the timer has millisecond resolution and
+     rounds up: d us behave as ceil(d / 1000) ms on whole-millisecond instants), else milliseconds;
+     d_k >= 10^18 = Duration::MAX (kept as 10^18 ms);
      op 1 = Poll a, 2 = Drop a, 3 = Advance a ms, 4 = Complete (a / 16) (a mod 16) b (b: 0 ok 1 err 2 panic),
-     5 = Ready (a / 16) (a mod 16)
+     5 = Ready (a / 16) (a mod 16), 6 = ReadyErr (a / 16) (a mod 16),
+     7 = the inner call (a / 16) (a mod 16) panics, synchronously inside inner.call() if it has not
+     been made yet: for the attempt task that makes it, that is Complete .. panic
    trace = per event [r; v; ns; nl; wake mask; in-flight; now]
      ns = (inner calls started in this event by call i) * 32^i, nl = same for hedge tasks launched *)
 Definition clamp (lo hi z : Z) : Z := Z.max lo (Z.min hi z).
@@ -307,7 +351,13 @@ Definition ev_of (ncalls : nat) (t : Z * Z * Z) : option ev :=
      then Some (Complete (Z.to_nat (a / 16)) (Z.to_nat (a mod 16)) (outcome_of b)) else None) else
   if op =? 5 then
     (if (0 <=? a) && (Z.to_nat (a / 16) <? ncalls)%nat
-     then Some (Ready (Z.to_nat (a / 16)) (Z.to_nat (a mod 16))) else None)
+     then Some (Ready (Z.to_nat (a / 16)) (Z.to_nat (a mod 16))) else None) else
+  if op =? 6 then
+    (if (0 <=? a) && (Z.to_nat (a / 16) <? ncalls)%nat
+     then Some (ReadyErr (Z.to_nat (a / 16)) (Z.to_nat (a mod 16))) else None) else
+  if op =? 7 then
+    (if (0 <=? a) && (Z.to_nat (a / 16) <? ncalls)%nat
+     then Some (Complete (Z.to_nat (a / 16)) (Z.to_nat (a mod 16)) OPanic) else None)
   else None.
 
 Fixpoint evs_of (ncalls : nat) (l : list (Z * Z * Z)) : list ev :=
@@ -347,15 +397,23 @@ Fixpoint run_evs (c : cfg) (total : nat) (s : st) (evs : list ev) : list Z :=
       ++ run_evs c total s' rest
   end.
 
+Definition dmax : Z := 10 ^ 18.
+
+(* a scripted delay in milliseconds: Duration::MAX stays 10^18; microseconds are rounded up *)
+Definition ms_of (micros : bool) (d : Z) : Z :=
+  let d := clamp 0 dmax d in
+  if dmax <=? d then dmax else if micros then (d + 999) / 1000 else d.
+
 Definition cfg_of (sc : list Z) : cfg :=
   let nd := Z.to_nat (clamp 0 16 (zn sc 3)) in
-  let ds := map (clamp 0 100000) (firstn nd (skipn 4 sc)) in
+  let mode := clamp 0 63 (zn sc 1) in
+  let ds := map (ms_of ((mode / 32) mod 2 =? 1)) (firstn nd (skipn 4 sc)) in
   {| maxa := Nat.max 1 (Z.to_nat (clamp 0 16 (zn sc 0)));     (* builder: n.max(1) *)
-     dcfg := let m := clamp 0 7 (zn sc 1) mod 4 in
+     dcfg := let m := mode mod 4 in
              if m =? 1 then Immediate
              else if m =? 2 then Dynamic ds
              else Fixed (nth 0 ds 0);
-     gated := (clamp 0 7 (zn sc 1) / 4) mod 2 =? 1 |}.
+     gated := (mode / 4) mod 2 =? 1 |}.
 
 Definition run_script (sc : list Z) : list Z :=
   let c := cfg_of sc in
